@@ -158,8 +158,9 @@ fn to_primitive(file: &SimFile, w: &WV) -> Result<Primitive, String> {
         WV::Val(v) => Ok(val_to_prim(v)),
         WV::Stream { dict, data } => Stream::new(dict_to_prim(dict), data.clone()).to_primitive(&mut NoUpdate).map_err(|e| error_kind(&e)),
         WV::InFile(id) => match file.resolver().resolve(PlainRef { id: *id, gen: 0 }) {
-            Ok(p @ Primitive::Stream(_)) => Ok(p),
-            Ok(_) => Err("no longer a stream".into()),
+            // only a stream whose data is still in the source file makes a save fail
+            Ok(Primitive::Stream(s)) if format!("{:?}", s).contains("inner: InFile") => Ok(Primitive::Stream(s)),
+            Ok(_) => Err("not a stream in the source file (any more)".into()),
             Err(e) => Err(error_kind(&e)),
         },
     }
@@ -208,6 +209,8 @@ struct Exec<'a> {
     handles: Vec<PlainRef>,
     promises: Vec<PromisedRef<Primitive>>,
     expect: BTreeMap<u64, Expect>,
+    /// every object number ever written in this run (never compared as "untouched")
+    ever_written: std::collections::BTreeSet<u64>,
     durable: Vec<u8>,
     durable_expect: BTreeMap<u64, Expect>,
     durable_handles: Vec<PlainRef>,
@@ -229,6 +232,9 @@ fn open_plain(bytes: &[u8], cached: bool, password: &[u8]) -> Result<SimFile, pd
 impl<'a> Exec<'a> {
     fn flags(&self) -> String {
         let mut f = vec![];
+        if self.case.base.inv.encrypted {
+            f.push("encrypted base file");
+        }
         if self.case.base.label.contains("junk") || self.case.base.label == "offset.pdf" {
             f.push("junk before the header");
         }
@@ -297,7 +303,9 @@ impl<'a> Exec<'a> {
         };
         match result {
             Ok((passed, handed)) => {
+                self.ever_written.insert(handed.id);
                 if let Some(p) = passed {
+                    self.ever_written.insert(p.id);
                     self.expect.insert(p.id, Expect { r: p, v: w.clone() });
                     if p.id < self.case.base.inv.size {
                         self.base_touched = true;
@@ -374,19 +382,26 @@ impl<'a> Exec<'a> {
         {
             let res = reloaded.resolver();
             for e in self.expect.values() {
+                const K3: &str = "encrypted base file: values written by save are stored unencrypted and do not read back";
                 match res.resolve(e.r) {
                     Ok(p) => {
                         if let Err(why) = matches(&res, &p, &e.v) {
+                            if self.case.base.inv.encrypted {
+                                return Err((K3.to_string(), format!("ref {} {}: {}", e.r.id, e.r.gen, why)));
+                            }
                             return Err((format!("after reload a written reference does not resolve to the last value written ({})", self.flags()), format!("ref {} {}: {}", e.r.id, e.r.gen, why)));
                         }
                     }
                     Err(err) => {
+                        if self.case.base.inv.encrypted {
+                            return Err((K3.to_string(), format!("ref {} {}: {}", e.r.id, e.r.gen, error_kind(&err))));
+                        }
                         return Err((format!("after reload a written reference fails to resolve: {} ({})", error_kind(&err), self.flags()), format!("ref {} {}: {:?}", e.r.id, e.r.gen, e.v).chars().take(300).collect()));
                     }
                 }
             }
             for (id, a) in &self.base_answers {
-                if self.expect.contains_key(id) {
+                if self.ever_written.contains(id) {
                     continue;
                 }
                 let got = ops::exec(&reloaded, &res, false, &Op::Resolve(*id));
@@ -395,7 +410,7 @@ impl<'a> Exec<'a> {
                 }
             }
             for (id, a) in &self.base_stream_answers {
-                if self.expect.contains_key(id) {
+                if self.ever_written.contains(id) {
                     continue;
                 }
                 let got = ops::exec(&reloaded, &res, false, &Op::StreamData(*id));
@@ -512,6 +527,7 @@ pub fn run_case(case: &Case, scratch: &str) -> Outcome {
         handles: vec![],
         promises: vec![],
         expect: BTreeMap::new(),
+        ever_written: Default::default(),
         durable: case.base.bytes.to_vec(),
         durable_expect: BTreeMap::new(),
         durable_handles: vec![],
@@ -715,7 +731,12 @@ impl C09 {
 
     fn gen_case(&mut self, ctx: &WorkerCtx, i: u64) -> Case {
         let mut rng = Rng::new(run_seed(ctx.verif_seed, "C09", i));
-        let base = self.bases[rng.usize(self.bases.len())].clone();
+        // encrypted base files end in the known finding K3 as soon as a string or stream is written;
+        // they get a small share of the runs so that the other base files are explored in depth
+        let mut base = self.bases[rng.usize(self.bases.len())].clone();
+        if base.inv.encrypted && !rng.chance(1, 8) {
+            base = self.bases[rng.usize(self.bases.len())].clone();
+        }
         // even runs: fault-free batch; odd runs: fault-injecting batch
         let faults = i % 2 == 1;
         let eligible: Vec<u64> = base
@@ -755,6 +776,21 @@ impl C09 {
         let mut final_sig = sig.to_string();
         let sig = base(sig).to_string();
         let sig = sig.as_str();
+        // a history that never names a base object is retried on the simplest base file
+        let names_base = best.ops.iter().any(|o| matches!(o, Op9::Update(Target::Base(_), _) | Op9::Read(Target::Base(_)) | Op9::Create(WV::InFile(_)) | Op9::Update(_, WV::InFile(_))));
+        if !names_base {
+            if let Some(simple) = self.bases.iter().find(|b| b.label.starts_with("gen") && b.label.contains("-classic") && !b.label.contains("junk")).cloned() {
+                let mut c = best.clone();
+                c.base = simple;
+                if let Some((s, d)) = run_case(&c, &self.scratch).violation {
+                    if base(&s) == sig {
+                        best = c;
+                        detail = d;
+                        final_sig = s;
+                    }
+                }
+            }
+        }
         if best.cached {
             let mut c = best.clone();
             c.cached = false;
